@@ -99,8 +99,11 @@ def _create_consumer(ctx, consumer_uuid, project, user, consumer_type_id,
         # Another thread created this consumer already, verify whether
         # the consumer type matches
         consumer = consumer_obj.Consumer.get_by_uuid(ctx, consumer_uuid)
-        # If the types don't match, update the consumer record
-        if consumer_type_id != consumer.consumer_type_id:
+        # If the types don't match, update the consumer record. A request
+        # below microversion 1.38 supplies no consumer type and must leave
+        # the one the racing request recorded alone.
+        if (consumer_type_id is not None and
+                consumer_type_id != consumer.consumer_type_id):
             LOG.debug("Supplied consumer type for consumer %s was "
                       "different than existing record. Updating "
                       "consumer record.", consumer_uuid)
